@@ -151,14 +151,18 @@ func handleShareMemoryByFilePath(s *Session, hdr header) error {
 
 // todo with stream'timeout
 func handleFallbackData(s *Session, h header, buf []byte) (int, bool, error) {
+	const fallbackDataHeader = 8
 	eventLen := int(h.Length())
 	payloadLen := eventLen - headerSize
+	// a fallback data event carries at least seqID and status after the header
+	if payloadLen < fallbackDataHeader {
+		return headerSize, false, ErrInvalidMsgType
+	}
 	if len(buf) < payloadLen {
 		return 0, true, nil
 	}
 	data := make([]byte, payloadLen)
 	copy(data, buf[:payloadLen])
-	const fallbackDataHeader = 8
 	// fallback data layout:  eventHeader | seqID | status | payload
 	seqID := binary.BigEndian.Uint32(data[:4])
 	// now the first byte of status is streamState, and the other byte of status is undefined .
